@@ -22,6 +22,7 @@ import common
 import gen_common as G
 import gen_checks as GC
 import c08
+import gen_clear2
 from common import coq_string, coq_list
 
 PID = 'C18'
@@ -217,7 +218,7 @@ def ren_kind(kind, m):
 
 def run(ctx):
     out = common.Outcome()
-    out.proof = common.proof_status(FAMILY, PROPFILE)
+    out.proof = common.proof_status_many([(FAMILY, PROPFILE)] + gen_clear2.PROOFS)
     n_ren = ctx.scale(30, 350)
     n_emb = ctx.scale(12, 120)
     cases, metas, seen = [], [], set()
@@ -235,6 +236,15 @@ def run(ctx):
             for k2 in alt:
                 if ctx.rng.random() < 0.7:
                     cm[k2] = alt[k2]
+        if ctx.rng.random() < 0.3:
+            # a code that begins with its own country's (new) code and an underscore, the rest being a sibling's
+            # (new) code: CAP -> 'QX_FAM' in country QX next to FAM; full codes 'QX_QX_FAM' and 'QX_FAM' stay distinct
+            ccs = [st['code'] for st in prog['steps'] if st['kind'] == 'country']
+            secs = set(st['code'] for st in prog['steps'] if st['kind'] == 'sector')
+            victims = [v for v in ('CAP', 'HW', 'BUS', 'TF') if v in secs]
+            if ccs and victims and 'HH' in secs:
+                cc = ctx.rng.choice(ccs)
+                cm[ctx.rng.choice(victims)] = '%s_%s' % (cm.get(cc, cc), cm.get('HH', 'HH'))
         try:
             case, p2, m, skip = rename_case(prog, cm)
         except G.Unsupported:
@@ -338,12 +348,18 @@ def run(ctx):
                        'name, D18c): government demand is declared explicitly under the market name in both builds and '
                        'PRIM_BAL (and the unused literal DEM_GOOD of the renamed build) is excluded from the comparison',
                        'money and deposit market codes (MON, DEP) are not renamed (Treasury hard-codes DEM_MON and takes no name)']
+    # third sentence of C18 for markets, for ALL programs of the multi-currency pipeline model (coq/GenClear2:
+    # Main2_market_zone_isolation, membership in iff form): the member lists the theorem names are compared with the
+    # object model and zone isolation is tested on the emitted rows
+    gen_clear2.extra(ctx, out, quick_n=30, thorough_n=300)
     return out
 
 
 def replay(path):
     obj = json.load(open(path))
     r = obj.get('replay') or {}
+    if r.get('kind') == 'clear2':
+        return gen_clear2.replay(obj)
     if r.get('kind') == 'rename':
         try:
             case, p2, m, skip = rename_case(r['prog'], r['codes'])
